@@ -279,12 +279,36 @@ TransferFrame(s, d, t) ==
           /\ ((s0.live /\ Usable(d0) /\ t.c.form # "foreign" /\ ~d0.haspol /\ "nnest" \notin d0.opts
                /\ (d0.cap = 0 \/ Len(s0.e) <= d0.cap - Len(d0.e))) => t.ret = <<"true">>)
 
+\* C03: the (Len, cap) projection of every transition is a step of the integer core CapCore.tla,
+\* whose invariant Apalache proves inductive for EVERY capacity and length (run/props.py, stage "capcore")
+Core == INSTANCE CapCore WITH len <- Len(st.e), cap <- st.cap
+CapRefines(s, d, t) ==
+  /\ (t.on = "st" /\ Usable(s) /\ t.s.live /\ t.c.op # "Transfer") =>
+       LET l == Len(s.e)  l2 == Len(t.s.e) IN
+       CASE t.c.op = "Push" /\ ~s.haspol /\ "nnest" \notin s.opts -> Core!StepRel("grow", Len(t.c.xs), l, s.cap, l2, t.s.cap)
+         [] t.c.op = "Push"   -> \E a \in 0..Len(t.c.xs) : Core!StepRel("grow", a, l, s.cap, l2, t.s.cap)
+         [] t.c.op = "Insert" -> Core!StepRel("insert", 0, l, s.cap, l2, t.s.cap) \/ Core!StepRel("same", 0, l, s.cap, l2, t.s.cap)
+         [] t.c.op \in {"Pop", "Remove", "Reset", "Defrag"} -> Core!StepRel("shrink", 0, l, s.cap, l2, t.s.cap)
+         [] t.c.op = "Marshal" -> \E a \in 0..(Len(t.c.xs) + 2) : Core!StepRel("grow", a, l, s.cap, l2, t.s.cap)
+         [] OTHER -> Core!StepRel("same", 0, l, s.cap, l2, t.s.cap)
+  /\ (t.c.op = "Transfer") =>
+       LET s0 == IF t.c.dir = "fwd" THEN s ELSE d
+           d0 == IF t.c.dir = "fwd" THEN d ELSE s
+           d1 == IF t.c.dir = "fwd" THEN t.d ELSE t.s
+       IN (d0.live /\ d1.live) =>
+            /\ (Core!StepRel("xfer", Len(s0.e), Len(d0.e), d0.cap, Len(d1.e), d1.cap) \/ Core!StepRel("same", 0, Len(d0.e), d0.cap, Len(d1.e), d1.cap))
+            /\ ((s0.live /\ Usable(d0) /\ t.c.form # "foreign" /\ ~d0.haspol /\ "nnest" \notin d0.opts)
+                  => Core!StepRel("xfer", Len(s0.e), Len(d0.e), d0.cap, Len(d1.e), d1.cap))
+  /\ (t.on = "st" /\ t.s.live => (Obs(t.s).cap = Core!CapOf(t.s.cap) /\ Obs(t.s).avail = Core!AvailOf(Len(t.s.e), t.s.cap)
+                                  /\ Obs(t.s).full = B2S(Core!FullOf(Len(t.s.e), t.s.cap))))
+
 StepProps ==
   /\ ListLaws(st)
   /\ \A t \in Trans(st, dst) :
         /\ LenDelta(st, t) /\ ReadOnlyFrame(st, t) /\ Inert(st, t) /\ OptIndependence(st, t)
         /\ NoNestPush(st, t) /\ PolicyDecides(st, t) /\ TransferFrame(st, dst, t) /\ ClosuresDecide(st, t) /\ LogLevelLaw(st, t)
         /\ (t.s.live /\ t.s.cap > 0 => Len(t.s.e) <= t.s.cap)
+        /\ CapRefines(st, dst, t)
 
 \* genuine action properties
 FifoLatch == [][(st.live /\ st'.live /\ st.fifo) => st'.fifo]_vars
